@@ -297,6 +297,14 @@ class _Norm:
                     for n in ast.walk(st):
                         if isinstance(n, ast.Name) and n.id in tn:
                             shadowed.add(id(n))
+            if isinstance(other, (ast.ListComp, ast.SetComp, ast.GeneratorExp, ast.DictComp)):
+                tn = set()
+                for g in other.generators:
+                    tn |= _targets(g.target)
+                first_iter = {id(n) for n in ast.walk(other.generators[0].iter)}
+                for n in ast.walk(other):
+                    if isinstance(n, ast.Name) and n.id in tn and id(n) not in first_iter:
+                        shadowed.add(id(n))
         return {n.id for n in ast.walk(self.fn) if isinstance(n, ast.Name)
                 and isinstance(n.ctx, ast.Load) and id(n) not in inside
                 and id(n) not in shadowed}
